@@ -26,4 +26,5 @@ for P in "$@"; do
   ./check $P > /tmp/seed/$S.check.$P.log 2>&1; echo "check $P rc=$? $(grep -c VIOLATION /tmp/seed/$S.check.$P.log) violation line(s): $(grep VIOLATION /tmp/seed/$S.check.$P.log | head -1 | cut -c1-160)"
 done
 git -C $R checkout -q -- .
+git -C /verif checkout -q -- lean/HL/Generated evidence 2>/dev/null
 mkdir -p /verif/seeded/$S && cp $O/* /verif/seeded/$S/
